@@ -51,7 +51,9 @@ class PB:
         self.seq += n
         src = DATA + rng.choice([0, 8, 64]) if src is None else src
         if src < 0x8000 and n:
-            self.acts.append({"op": "mem_write_bytes", "addr": src, "data": data})
+            inside = max(0, min(n, DATA + 0x200 - src))          # a source that runs over the end of its area: only the prefix can be prepared
+            if inside:
+                self.acts.append({"op": "mem_write_bytes", "addr": src, "data": data[:inside]})
         self.sys(1, fdref, src, n, {"kind": "write", "fd": fdref, "n": n, "data": data, "src": src})
 
     def read(self, rng, fdref, n, dst=None):
@@ -75,11 +77,11 @@ def random_scenarios(rng, n, length):
             p, other = b.fd(rng)
             if u < 0.55:
                 fdref = {"ref": p[1] if rng.random() < 0.85 else p[0]} if p else other      # mostly the write end; sometimes the read end
-                src = None if rng.random() < 0.93 else 0x9000                                 # unmapped source
+                src = None if rng.random() < 0.90 else rng.choice([0x9000, DATA + 0x200 - 1, DATA + 0x200 - 2, DATA + 0x200 - 4, DATA + 0x200 - 8])   # unmapped source / source running over the end of its area
                 b.write(rng, fdref, rng.choice([0, 1, 2, 3, 5, 8, 13, 40]), src)
             else:
                 fdref = {"ref": p[0] if rng.random() < 0.85 else p[1]} if p else other
-                dst = None if rng.random() < 0.93 else rng.choice([RO, 0x9000])
+                dst = None if rng.random() < 0.90 else rng.choice([RO, 0x9000, DATA + 0x200 - 1, DATA + 0x200 - 3, DATA + 0x200 - 8])
                 b.read(rng, fdref, rng.choice([0, 1, 2, 3, 4, 8, 16, 64]), dst)
         scs.append(b.scenario())
     return scs
